@@ -114,7 +114,10 @@ impl SampleTables {
         let cts_offsets: Vec<i32> = samples
             .iter()
             .map(|sample| {
-                let offset = (sample.pts as i64 - sample.dts as i64) as i32;
+                // pts - dts was checked to fit an i32 when the sample was accepted; 128-bit
+                // arithmetic avoids the i64 overflow of `pts as i64 - dts as i64` for
+                // timestamps on either side of 2^63.
+                let offset = (i128::from(sample.pts) - i128::from(sample.dts)) as i32;
                 if offset != 0 {
                     has_bframes = true;
                 }
